@@ -11,23 +11,24 @@ import (
 // points, reference paths, path-reference areas and relations in OSM-like
 // namespaces with small IDs.
 type GenConfig struct {
-	MaxPoints     int
-	MaxPaths      int
-	MaxLoops      int
-	MaxAreas      int
-	MaxRelations  int
-	Namespaces    []string // candidate namespaces; empty = NamespacePool
-	HighIDs       bool     // ID values from the boundary mixture (>= 2^63, MaxUint64, ...)
-	LatLngPaths   bool     // paths made only of lat/lngs
-	MixedPaths    bool     // paths mixing references and lat/lngs
-	LatLngAreas   bool     // polygons given as lat/lng loops
-	MixedAreas    bool     // areas mixing path and lat/lng polygons
-	Holes         bool     // lat/lng polygons may have a hole
-	AbsentMembers bool     // relation members that do not exist
-	SelfMembers   bool     // relations containing relations (no cycles unless Cycles)
-	Collections   int      // max collections
-	TagKeys       []string
-	TagValues     []string
+	MaxPoints       int
+	MaxPaths        int
+	MaxLoops        int
+	MaxAreas        int
+	MaxRelations    int
+	Namespaces      []string   // candidate namespaces; empty = NamespacePool
+	TypedNamespaces [][]string // if set: the candidate namespaces per feature type (point, path, area, relation, collection)
+	HighIDs         bool       // ID values from the boundary mixture (>= 2^63, MaxUint64, ...)
+	LatLngPaths     bool       // paths made only of lat/lngs
+	MixedPaths      bool       // paths mixing references and lat/lngs
+	LatLngAreas     bool       // polygons given as lat/lng loops
+	MixedAreas      bool       // areas mixing path and lat/lng polygons
+	Holes           bool       // lat/lng polygons may have a hole
+	AbsentMembers   bool       // relation members that do not exist
+	SelfMembers     bool       // relations containing relations (no cycles unless Cycles)
+	Collections     int        // max collections
+	TagKeys         []string
+	TagValues       []string
 }
 
 var NamespacePool = []string{
@@ -155,6 +156,10 @@ func GenSet(t *rapid.T, cfg GenConfig) Set {
 		pool = NamespacePool
 	}
 	for ty := range b.ns {
+		if ty < len(cfg.TypedNamespaces) && len(cfg.TypedNamespaces[ty]) > 0 {
+			b.ns[ty] = cfg.TypedNamespaces[ty]
+			continue
+		}
 		n := rapid.IntRange(1, 2).Draw(t, "nns")
 		b.ns[ty] = rapid.SliceOfNDistinct(rapid.SampledFrom(pool), n, n, rapid.ID[string]).Draw(t, "nspool")
 	}
